@@ -276,7 +276,7 @@ func genNodeOp(rt *rapid.T, nm *hx.NodeMachine, cfg genCfg) hx.NOp {
 		if nm.Ptr != m.Tip {
 			return hx.NOp{Op: "sync"}
 		}
-		if nm.FS.Active("C13-timer-tx-sees-pending-task") && nm.PendingTimerFor(m.Blocks[m.Tip].Height+1) {
+		if nm.FS.Active("C13-timer-tx-sees-pending-task") && (nm.PendingTimerFor(m.Blocks[m.Tip].Height+1) || nm.TimerConflictsWithPool(m.Blocks[m.Tip].Height+1)) {
 			nm.Stat["excluded:C13-timer-tx-sees-pending-task"]++
 			return hx.NOp{Op: "sync"}
 		}
